@@ -22,7 +22,7 @@ typedef struct {
 } profile_t;
 
 static profile_t g_pf;
-static const uint32_t LENS_SMALL[] = { 1, 4, 7, 16, 33, 3, 8, 13, 21, 64, 100, 30 };
+static const uint32_t LENS_SMALL[] = { 1, 4, 7, 16, 33, 3, 8, 13, 21, 64, 100, 30, 2, 1025, 5, 1500 };
 static const uint32_t LENS_FULL[] = { 1, 2, 3, 4, 5, 7, 8, 9, 15, 16, 17, 31, 32, 33, 63, 64, 65, 127, 128, 1023, 1024, 1025, 1500 };
 
 static void profile(const char *p)
@@ -101,10 +101,10 @@ static void build_cfg_list(void)
 		static const uint32_t hn[][3] = { {3,12,9}, {4,12,12}, {6,10,10}, {8,16,12}, {5,20,16}, {10,40,32}, {2,9,9}, {20,30,11}, {7,64,64} };
 		for (unsigned i = 0; i < sizeof hn / sizeof hn[0]; i++)
 			for (unsigned si = 0; si < (T ? 4u : 2u); si++) add_cfg(3, 0, hn[i][0], hn[i][1], hn[i][2], seeds[(i + si) % 8], hn[i][0] + hn[i][1] > exh);
-		static const uint32_t lk[] = { 16, 20, 33, 64, 100, 250, 1000 };
+		static const uint32_t lk[] = { 16, 20, 33, 64, 100, 300, 1000 };    /* 300 and 1000: beyond 8-bit counters */
 		for (unsigned i = 0; i < sizeof lk / sizeof lk[0]; i++) {
 			uint32_t k = lk[i];
-			if (k > 100 && !T && strcmp(g_run.prop, "C07")) { if (k > 250) continue; }
+			if (k > 300 && !T && strcmp(g_run.prop, "C07") && strcmp(g_run.prop, "C01") && strcmp(g_run.prop, "C03")) continue;
 			uint32_t rs_[3] = { k / 2 < 3 ? 3 : k / 2, k, 2 * k };
 			for (int j = 0; j < 3; j++) for (uint32_t N1 = 3; N1 <= 10 && N1 <= rs_[j]; N1 += (N1 < 7 ? 1 : 3)) {
 				if (!T && (i * 5 + (unsigned)j * 3 + N1) % 3) continue;
@@ -158,6 +158,7 @@ static void run_one(const block_t *b, const uint8_t *inset, uint64_t maskdesc, i
 	hi.finish = g_pf.finish == 2 ? (int)((h >> 7) % 3 != 0) : g_pf.finish;
 	if (g_pf.cb == 1) hi.cbmode = 1 + (int)((h >> 11) % 5); else if (g_pf.cb == 2) hi.cbmode = ((h >> 11) % 3 == 0) ? 1 + (int)((h >> 17) % 5) : 0;
 	if (g_pf.roles) hi.roles = (int)((h >> 23) % 4 == 0 ? 1 + ((h >> 29) & 1) : 0);
+	else hi.roles = (int)((h >> 23) % 16 == 0 ? 1 + ((h >> 29) & 1) : 0);      /* an encoder+decoder instance now and then */
 	int order = hi.api == 1 ? 0 : (int)((h >> 31) % (g_pf.dups ? 5 : 4));
 	hi.nsub = make_sequence(inset, n, k, order, r);
 	if (g_pf.stops && hi.nsub && (h >> 37) % 4 == 0) hi.nsub = rng_below(r, hi.nsub + 1);   /* release mid-way */
